@@ -196,3 +196,48 @@ Example C05_nonvacuous_system :
   nth_error (sys_run (sys_new (false, Some 1, 0, [(1, 100)])) (std_ops ops)) 25 = Some (Ok (true, Some [(12, 55, 7)])) /\
   fold_left upd (firstn 26 (map snd ops)) (0, 100, 0) = (12, 55, 7).
 Proof. vm_compute. repeat split; discriminate. Qed.
+
+(** ------------------------------------------------------------------------------------------
+    NOTHING LOST, both kinds of targets.
+    First conjunct: the stand-alone bar (= C05_nothing_lost_partial, model/Limiter.v).
+    Second conjunct: members of a MultiProgress, on the drawing-system model model/Sys.v with the
+    ghost of model/MultiLatest.v (docs/C02.md, "latest drawn state").  A member renders its
+    current state into its slot BEFORE the refresh limiter of the MultiProgress target is asked, so
+    a refused (skipped) draw still refreshes the stored lines.  For every initially empty
+    MultiProgress on a terminal target with ANY refresh limiter, any bars, every valid history
+    (any times, any limiter state, any number of refused draws before), every fault oracle and
+    every MultiState::draw [(m, f, ex)] of the next call [o] - a call on ANY member or on the
+    MultiProgress itself; by C02_frame the draw, if attempted, paints exactly [ms_frame m ex] -:
+    the frame is  text ++ concat (for each slot of the ordering: [frame_of] the owning bar's
+    state at that bar's MOST RECENT draw step [lg_last], not at its last PAINTED one), and for a
+    member that is in sync ([le_sync]: no set_style and no position update refused by the bar's
+    OWN position limiter since its last draw step - the only calls that change a bar's logic state
+    without a draw step, C02_logic_change) this is [frame_of] its CURRENT state: position, length,
+    message, prefix of the latest update.  The ghost [lat_step] never consults a limiter.
+    Out of sync members are the narrow class documented in docs/C05.md (C05_multi_stale_refuted). *)
+From IndModel Require Import MultiSpec MultiLatest.
+From IndProofs Require Import MultiLatestProofs.
+
+Theorem C05_nothing_lost :
+  (forall (R t0 tb len0 : N) (ops : list (N * bop)) (k : nat) (out : sout),
+     1 <= R <= 255 -> t0 <= tb ->
+     nondec tb (map fst ops) -> (forall t, In t (map fst ops) -> t < tb + U64) ->
+     nth_error (sys_run (sys_new (false, Some R, t0, [(tb, len0)])) (std_ops ops)) k = Some out ->
+     exists reached fr, out = Ok (reached, fr) /\
+       (fr = None \/ fr = Some [fold_left upd (firstn (S k) (map snd ops)) (0, len0, 0)]))
+  /\
+  (forall (W H : N) (fails : N -> bool) (s0 : sys) (h1 h2 : list (N * op)) (now : N) (o : op),
+     init_ok s0 -> mp_visible s0 -> hist_ok W H fails s0 (h1 ++ (now, o) :: h2) ->
+     let r := lrun W H fails s0 0 lg_empty h1 in
+     let s := fst (fst r) in
+     let s' := step_sys W H fails s now o in
+     let g' := lat_step s now o (length h1) (snd r) in
+     forall m f ex, In (m, f, ex) (step_draws W H fails s now o) ->
+       ms_frame m ex = (match ex with Some e => e | None => [] end ++ ms_orphans m)
+                       ++ concat (map (shown g') (ms_order m))
+       /\ forall i e, In i (ms_order m) -> lg_slot g' i = Some e ->
+            b_target (get_bar s (le_bar e)) = TMulti i
+            /\ lg_last g' (le_bar e) = Some (le_step e)
+            /\ (le_sync e = true -> shown g' i = frame_of (get_bar s' (le_bar e)))).
+Proof. exact (conj std_nothing_lost nothing_lost_multi). Qed.
+Print Assumptions C05_nothing_lost.
